@@ -279,8 +279,126 @@ class Normalizer:
             out.extend(self._stmt(st, cls, depth))
         return out
 
+    # ------------------------------------------------------------------ match statements
+    BUILTIN_SELF_MATCH = {"bool", "bytearray", "bytes", "dict", "float", "frozenset", "int", "list", "set", "str", "tuple"}
+
+    def _pattern(self, pat, subj: ast.expr):
+        """(test expression or None for 'always', [(name, expr)] bindings) of pattern `pat` against the pure expression `subj`;
+        raises _CannotInline for pattern kinds not modelled"""
+        def conj(ts):
+            ts = [t for t in ts if t is not None]
+            if not ts:
+                return None
+            return ts[0] if len(ts) == 1 else ast.BoolOp(op=ast.And(), values=ts)
+        if isinstance(pat, ast.MatchValue):
+            return ast.Compare(left=copy.deepcopy(subj), ops=[ast.Eq()], comparators=[pat.value]), []
+        if isinstance(pat, ast.MatchSingleton):
+            return ast.Compare(left=copy.deepcopy(subj), ops=[ast.Is()], comparators=[ast.Constant(value=pat.value)]), []
+        if isinstance(pat, ast.MatchAs):
+            if pat.pattern is None:
+                return None, ([(pat.name, copy.deepcopy(subj))] if pat.name else [])
+            t, b = self._pattern(pat.pattern, subj)
+            return t, b + ([(pat.name, copy.deepcopy(subj))] if pat.name else [])
+        if isinstance(pat, ast.MatchOr):
+            parts = [self._pattern(p, subj) for p in pat.patterns]
+            if any(b for _, b in parts):
+                raise _CannotInline("alternative patterns with captures")
+            if any(t is None for t, _ in parts):
+                return None, []
+            return ast.BoolOp(op=ast.Or(), values=[t for t, _ in parts]), []
+        if isinstance(pat, ast.MatchClass):
+            tests = [ast.Call(func=ast.Name(id="isinstance", ctx=ast.Load()), args=[copy.deepcopy(subj), pat.cls], keywords=[])]
+            binds = []
+            cname = (A.dotted(pat.cls) or "").split(".")[-1]
+            if pat.patterns:
+                if len(pat.patterns) == 1 and cname in self.BUILTIN_SELF_MATCH:
+                    t, b = self._pattern(pat.patterns[0], subj)
+                    tests.append(t)
+                    binds += b
+                else:
+                    raise _CannotInline("positional class patterns need __match_args__")
+            for attr, sub in zip(pat.kwd_attrs, pat.kwd_patterns):
+                t, b = self._pattern(sub, ast.Attribute(value=copy.deepcopy(subj), attr=attr, ctx=ast.Load()))
+                tests.append(t)
+                binds += b
+            return conj(tests), binds
+        if isinstance(pat, ast.MatchSequence):
+            if any(isinstance(p, ast.MatchStar) for p in pat.patterns):
+                raise _CannotInline("star patterns")
+            if isinstance(subj, ast.Tuple) and len(subj.elts) == len(pat.patterns):
+                tests, binds = [], []
+                for el, p in zip(subj.elts, pat.patterns):
+                    t, b = self._pattern(p, el)
+                    tests.append(t)
+                    binds += b
+                return conj(tests), binds
+            tests = [ast.Call(func=ast.Name(id="isinstance", ctx=ast.Load()), args=[copy.deepcopy(subj), ast.Tuple(
+                elts=[ast.Name(id="tuple", ctx=ast.Load()), ast.Name(id="list", ctx=ast.Load())], ctx=ast.Load())], keywords=[]),
+                ast.Compare(left=ast.Call(func=ast.Name(id="len", ctx=ast.Load()), args=[copy.deepcopy(subj)], keywords=[]),
+                            ops=[ast.Eq()], comparators=[ast.Constant(value=len(pat.patterns))])]
+            binds = []
+            for i, p in enumerate(pat.patterns):
+                t, b = self._pattern(p, ast.Subscript(value=copy.deepcopy(subj), slice=ast.Constant(value=i), ctx=ast.Load()))
+                tests.append(t)
+                binds += b
+            return conj(tests), binds
+        raise _CannotInline(f"pattern {type(pat).__name__}")
+
+    def _lower_match(self, st) -> Optional[List[ast.stmt]]:
+        """match/case as the if/elif chain it abbreviates (captures become assignments at the head of the arm; a guard that
+        uses a capture reads the captured sub-expression instead)"""
+        pre: List[ast.stmt] = []
+        subj = st.subject
+        pure = isinstance(subj, (ast.Name, ast.Constant)) or (isinstance(subj, ast.Tuple) and all(
+            isinstance(e, (ast.Name, ast.Constant, ast.Attribute, ast.Compare)) for e in subj.elts)) or \
+            (isinstance(subj, ast.Attribute) and isinstance(subj.value, ast.Name))
+        if isinstance(subj, ast.Tuple) and not all(isinstance(e, (ast.Name, ast.Constant)) for e in subj.elts):
+            # element expressions are evaluated once, in order
+            elts = []
+            for e in subj.elts:
+                if isinstance(e, (ast.Name, ast.Constant)):
+                    elts.append(e)
+                else:
+                    tmp = self._fresh("m")
+                    pre.append(ast.copy_location(ast.Assign(targets=[ast.Name(id=tmp, ctx=ast.Store())], value=e, lineno=st.lineno), st))
+                    elts.append(ast.Name(id=tmp, ctx=ast.Load()))
+            subj = ast.Tuple(elts=elts, ctx=ast.Load())
+        elif not pure:
+            tmp = self._fresh("m")
+            pre.append(ast.copy_location(ast.Assign(targets=[ast.Name(id=tmp, ctx=ast.Store())], value=subj, lineno=st.lineno), st))
+            subj = ast.Name(id=tmp, ctx=ast.Load())
+        arms = []
+        try:
+            for case in st.cases:
+                test, binds = self._pattern(case.pattern, subj)
+                guard = case.guard
+                if guard is not None and binds:
+                    guard = _SubstName({n: e for n, e in binds}).visit(copy.deepcopy(guard))
+                if guard is not None:
+                    test = guard if test is None else ast.BoolOp(op=ast.And(), values=[test, guard])
+                body = [ast.copy_location(ast.Assign(targets=[ast.Name(id=n, ctx=ast.Store())], value=e, lineno=case.body[0].lineno), case.body[0])
+                        for n, e in binds] + list(case.body)
+                arms.append((test, body))
+        except _CannotInline:
+            return None
+        # build the chain from the last arm backwards
+        tail: List[ast.stmt] = []
+        for test, body in reversed(arms):
+            if test is None:
+                tail = body
+            else:
+                tail = [ast.copy_location(ast.If(test=test, body=body, orelse=tail), st)]
+        out = pre + tail
+        for x in out:
+            ast.fix_missing_locations(x)
+        return out
+
     def _stmt(self, st, cls, depth) -> List[ast.stmt]:
         pre: List[ast.stmt] = []
+        if isinstance(st, ast.Match):
+            low = self._lower_match(st)
+            if low is not None:
+                return self._block(low, cls, depth)
         # a test that is a literal constant (a mode flag of an inlined helper): only the live arm remains
         if isinstance(st, ast.If):
             t, neg_ = st.test, False
